@@ -294,6 +294,8 @@ def main(run, shard=(0, 1)) -> None:
         text = roundtrip(run, vmf, opts, 'generated', case, features)
         if text is not None and i % 5 == 0:
             dup_ids_case(run, text, i)
+        if text is not None and i % 3 == 0 and not opts['minimal']:
+            foreign_numbering_case(run, text, i)
         if text is not None and i % 4 == 1:
             # history: the map that has just been exported is edited through the public API and goes through all the laws
             # again (nothing about an object may be remembered from an earlier export)
@@ -366,6 +368,67 @@ def edit_map(vmf, rng) -> int:
     return n + 1
 
 
+def foreign_numbering_case(run, text: str, i: int) -> None:
+    """The same map as another editor numbers it: groups and visgroups both count from 1 (the two kinds of ID are independent
+    in the format, so equal numbers are the normal case in Hammer's own files), every reference renumbered along.  Read with
+    and without preserve_ids it is the same map: same groups, same visgroups, same membership."""
+    from srctools.vmf import VMF
+    from srctools.keyvalues import Keyvalues
+    tree = Keyvalues.parse(text)
+    gmap: Dict[str, str] = {}
+    vmap: Dict[str, str] = {}
+    for blk in tree.iter_tree(blocks=True):
+        if not blk.has_children():
+            continue
+        if blk.name == 'group':
+            for ch in blk:
+                if ch.name == 'id' and not ch.has_children():
+                    gmap.setdefault(ch.value, str(len(gmap) + 1))
+        elif blk.name == 'visgroup':
+            for ch in blk:
+                if ch.name == 'visgroupid' and not ch.has_children():
+                    vmap.setdefault(ch.value, str(len(vmap) + 1))
+    if not gmap or not vmap or not all(k.isdecimal() and k.isascii() for k in list(gmap) + list(vmap)):
+        return
+    # (order-preserving, so that descriptions which list groups by ascending ID keep their order)
+    gmap = {k: str(n + 1) for n, k in enumerate(sorted(gmap, key=int))}
+    vmap = {k: str(n + 1) for n, k in enumerate(sorted(vmap, key=int))}
+    for blk in tree.iter_tree(blocks=True):
+        if not blk.has_children():
+            continue
+        for ch in blk:
+            if ch.has_children():
+                continue
+            if blk.name == 'group' and ch.name == 'id':
+                ch.value = gmap[ch.value]
+            elif blk.name == 'visgroup' and ch.name == 'visgroupid':
+                ch.value = vmap[ch.value]
+            elif blk.name == 'editor' and ch.name == 'groupid' and ch.value in gmap:
+                ch.value = gmap[ch.value]
+            elif blk.name == 'editor' and ch.name == 'visgroupid' and ch.value in vmap:
+                ch.value = vmap[ch.value]
+    renumbered = tree.serialise()
+    try:
+        ref = gen_vmf.describe_map(VMF.parse(Keyvalues.parse(text), preserve_ids=True))
+    except Exception:
+        return  # the unchanged text is judged by the round-trip laws, not here
+    for preserve in (False, True):
+        case = {'id': i, 'foreign_numbering': True, 'preserve_ids': preserve}
+        try:
+            got = gen_vmf.describe_map(VMF.parse(Keyvalues.parse(renumbered), preserve_ids=preserve))
+        except Exception as exc:
+            run.violation(f'a map whose groups and visgroups are both numbered from 1 does not parse (preserve_ids={preserve}): '
+                          f'{type(exc).__name__}: {exc}', case=case, engine='foreign-numbering', key='foreign-numbering-raises')
+            continue
+        run.count('maps_renumbered_like_another_editor')
+        d = gen_vmf.diff(ref, got)
+        if d is not None:
+            run.violation(f'a map whose groups and visgroups are both numbered from 1 ({len(gmap)} groups, {len(vmap)} visgroups) is read '
+                          f'as a different map with preserve_ids={preserve}: {d}', witness={'diff': d, 'group_numbers': gmap,
+                                                                                          'visgroup_numbers': vmap},
+                          case=case, engine='foreign-numbering', key='group-and-visgroup-numbers-interfere')
+
+
 def dup_ids_case(run, text: str, i: int) -> None:
     """A file whose brush, face and entity IDs collide (as third-party tools write them), opened with preserve_ids=True: "IDs
     preserved when asked" - the text must then be a fixed point with exactly those IDs, however the file reaches the parser."""
@@ -422,4 +485,4 @@ def replay(run, data) -> None:
 
 
 # (kept at the end of the file so that the text above stays the description the check was first built to)
-RULE += ' ' + 'Later additions: entities with 98-112 fixups and explicit three-digit replaceNN indexes; viewport roll; world brushes in several visgroups; all 16 displacement flag values; worldspawn with a targetname and fixups; 0 / 1 / 12 Strata points.'
+RULE += ' ' + 'Later additions: entities with 98-112 fixups and explicit three-digit replaceNN indexes; viewport roll; world brushes in several visgroups; all 16 displacement flag values; worldspawn with a targetname and fixups; 0 / 1 / 12 Strata points. A third of the exported texts are renumbered the way another editor numbers them (groups and visgroups both from 1, references along) and must read as the same map with and without preserve_ids.'
